@@ -234,6 +234,155 @@ C08Modify(pre, e, post, increase) ==
 NoTransferFee(s, p) == s.mint[s.pool[p].mintA].exts = <<>> /\ s.mint[s.pool[p].mintB].exts = <<>>
 
 -----------------------------------------------------------------------------
+(* C07: ghost share ledgers.  For every position the spec accumulates, per swap step executed while
+   the segment tick is inside its range, the exact pro-rata share of the step's LP fee as a
+   2^128-scaled interval [lo, hi] (floor / ceil of lp * L * 2^128 / Lt).  `cr' sums what the program
+   credited (increments of owed), starting at minus what was pending when the ledger was opened.
+   n counts in-range steps and credits (each loses less than L/2^64 + 1 units), lmax the largest
+   liquidity held.  (The -1 at opening: what was pending then is a floor, so the first credit can
+   contain up to one unit that belongs to the time before the ledger.)                                                                               *)
+Q128 == BPow2(128)
+LedOpen(s, k) ==
+  LET x == s.pos[k] IN
+  [hiA |-> 0, loA |-> 0, hiB |-> 0, loB |-> 0,
+   crA |-> (0 -- Pending(s, x.pool, x, TRUE)) -- 1, crB |-> (0 -- Pending(s, x.pool, x, FALSE)) -- 1, n |-> 0, lmax |-> x.liq]
+
+StepInRange(sp_, x) == ~(sp_.liq \doteq 0) /\ ~(x.liq \doteq 0) /\ x.lo <= sp_.tick0 /\ sp_.tick0 < x.up
+LpFee(sw, sp_) == sp_.fee -- ProtoCut(sp_.fee, sw.pool.proto_rate)
+ShareHi(sw, x) == SeqSum(sw.steps, LAMBDA sp_ : IF StepInRange(sp_, x) THEN CeilDiv((LpFee(sw, sp_) \otimes x.liq) \otimes Q128, sp_.liq) ELSE 0)
+ShareLo(sw, x) == SeqSum(sw.steps, LAMBDA sp_ : IF StepInRange(sp_, x) THEN BDiv((LpFee(sw, sp_) \otimes x.liq) \otimes Q128, sp_.liq) ELSE 0)
+StepsIn(sw, x) == SeqSum(sw.steps, LAMBDA sp_ : IF StepInRange(sp_, x) THEN 1 ELSE 0)
+
+OwedDelta(a, b) == Wrap((b ++ BPow2(64)) -- a, 64)       \* increment of a wrapping u64
+
+PosUpdateNames == {"increase_liquidity", "increase_liquidity_v2", "decrease_liquidity", "decrease_liquidity_v2",
+                   "increase_liquidity_by_token_amounts_v2", "update_fees_and_rewards"}
+LedResetNames == {"reposition_liquidity_v2", "reset_position_range"}
+
+LedAfter(led, pre, e, post) ==
+  LET base == [k \in (DOMAIN led \cap DOMAIN post.pos) |-> led[k]]
+      fresh == [k \in (DOMAIN post.pos \ DOMAIN led) |-> LedOpen(post, k)]
+      cur == base @@ fresh
+  IN IF IsSwapName(e.name) /\ Len(e.swaps) = 1
+     THEN LET sw == e.swaps[1] p == APool(e) IN
+          [k \in DOMAIN cur |->
+             IF k \in DOMAIN pre.pos /\ pre.pos[k].pool = p
+             THEN LET x == pre.pos[k] IN
+                  IF e.args.aToB
+                  THEN [cur[k] EXCEPT !.hiA = @ ++ ShareHi(sw, x), !.loA = @ ++ ShareLo(sw, x), !.n = @ ++ StepsIn(sw, x)]
+                  ELSE [cur[k] EXCEPT !.hiB = @ ++ ShareHi(sw, x), !.loB = @ ++ ShareLo(sw, x), !.n = @ ++ StepsIn(sw, x)]
+             ELSE cur[k]]
+     ELSE IF e.name \in PosUpdateNames /\ APos(e) \in DOMAIN pre.pos /\ APos(e) \in DOMAIN cur
+     THEN LET k == APos(e) IN
+          [cur EXCEPT ![k] = [@ EXCEPT !.crA = @ ++ OwedDelta(pre.pos[k].owedA, post.pos[k].owedA),
+                                       !.crB = @ ++ OwedDelta(pre.pos[k].owedB, post.pos[k].owedB),
+                                       !.n = @ ++ 1, !.lmax = BMax(@, post.pos[k].liq)]]
+     ELSE IF e.name \in LedResetNames /\ APos(e) \in DOMAIN cur
+     THEN [cur EXCEPT ![APos(e)] = LedOpen(post, APos(e))]
+     ELSE cur
+
+LedSlack(ld) == (ld.n \otimes (BDiv(ld.lmax, BPow2(64)) ++ 1)) ++ 2
+C07Ledger(led, post) ==
+  \A k \in DOMAIN led :
+    LET ld == led[k] x == post.pos[k] IN
+    /\ Sub("fee_upper_a", (ld.crA \otimes Q128) \preceq ld.hiA)
+    /\ Sub("fee_upper_b", (ld.crB \otimes Q128) \preceq ld.hiB)
+    /\ Sub("fee_lower_a", ld.loA \preceq (((ld.crA ++ Pending(post, x.pool, x, TRUE)) ++ LedSlack(ld)) \otimes Q128))
+    /\ Sub("fee_lower_b", ld.loB \preceq (((ld.crB ++ Pending(post, x.pool, x, FALSE)) ++ LedSlack(ld)) \otimes Q128))
+
+-----------------------------------------------------------------------------
+(* C11: rewards.  Every instruction that carries a timestamp first accrues, for every initialized
+   reward of the pool, floor(dt * emissions / liquidity) of growth (nothing when the in-range
+   liquidity is zero, dt = 0 or the product exceeds 128 bits) and stamps the pool with `now';
+   it fails when `now' is earlier than the last update.                                         *)
+UpdatingNames == {"swap", "swap_v2", "increase_liquidity", "increase_liquidity_v2", "decrease_liquidity", "decrease_liquidity_v2",
+                  "increase_liquidity_by_token_amounts_v2", "reposition_liquidity_v2", "update_fees_and_rewards",
+                  "set_reward_emissions", "set_reward_emissions_v2"}
+PoolOfEvent(pre, e) ==
+  IF Has(e.args, "pool") THEN APool(e)
+  ELSE IF Has(e.args, "pos") /\ APos(e) \in DOMAIN pre.pos THEN pre.pos[APos(e)].pool ELSE "none"
+
+AccrualDropped(pool, i, now) == WrapMod \preceq ((now -- pool.rewardTs) \otimes pool.rewards[i].emissions)
+Accrues(pool, i, now) ==
+  pool.rewards[i].init /\ ~(pool.liq \doteq 0) /\ ~((now -- pool.rewardTs) \doteq 0) /\ ~AccrualDropped(pool, i, now)
+AccruedGrowth(pool, i, now) ==
+  IF Accrues(pool, i, now)
+  THEN WAdd(pool.rewards[i].growth, BDiv((now -- pool.rewardTs) \otimes pool.rewards[i].emissions, pool.liq))
+  ELSE pool.rewards[i].growth
+
+C11Accrual(pre, e, post) ==
+  \A p \in DOMAIN pre.pool \cap DOMAIN post.pool :
+    IF p = PoolOfEvent(pre, e) /\ e.name \in UpdatingNames
+    THEN /\ Sub("timestamp_monotone", pre.pool[p].rewardTs \preceq e.now)
+         /\ Sub("timestamp_stamped", post.pool[p].rewardTs \doteq e.now)
+         /\ Sub("growth_accrued", \A i \in 1..3 : post.pool[p].rewards[i].growth \doteq AccruedGrowth(pre.pool[p], i, e.now))
+    ELSE /\ Sub("timestamp_untouched", post.pool[p].rewardTs \doteq pre.pool[p].rewardTs)
+         /\ Sub("growth_untouched", \A i \in 1..3 : post.pool[p].rewards[i].growth \doteq pre.pool[p].rewards[i].growth)
+
+C11SetEmissions(pre, e, post) ==
+  LET p == APool(e) i == e.args.index + 1 IN
+  /\ Sub("day_funded", BDiv(86400 \otimes e.args.emissions, BPow2(64)) \preceq Bal(pre, e.slots.reward_vault.id))
+  /\ Sub("vault_of_index", e.slots.reward_vault.id = pre.pool[p].rewards[i].vault /\ pre.pool[p].rewards[i].init)
+  /\ Sub("emissions_set", post.pool[p].rewards[i].emissions \doteq e.args.emissions)
+  /\ Sub("others_unchanged", \A j \in 1..3 : j # i => post.pool[p].rewards[j].emissions \doteq pre.pool[p].rewards[j].emissions)
+
+C11Collect(pre, e, post) ==
+  LET k == APos(e) i == e.args.index + 1
+      owed == pre.pos[k].rw[i].owed
+      vb == Bal(pre, e.slots.reward_vault.id)
+      paid == BMin(owed, vb)
+  IN /\ Sub("pays_min", Delta(pre, post, e.slots.reward_owner_account.id) \doteq paid)
+     /\ Sub("vault_pays", (0 -- Delta(pre, post, e.slots.reward_vault.id)) \doteq paid)
+     /\ Sub("remainder_owed", post.pos[k].rw[i].owed \doteq (owed -- paid))
+     /\ Sub("vault_of_index", e.slots.reward_vault.id = pre.pool[pre.pos[k].pool].rewards[i].vault)
+
+(* reward share ledgers, as for fees (C07) but per accrual interval *)
+RewardInside(s, x, i) ==
+  LET pool == s.pool[x.pool] lo == TickOf(s, x.pool, x.lo) up == TickOf(s, x.pool, x.up) IN
+  GrowthInside(pool.tick, x.lo, x.up, pool.rewards[i].growth, lo.init, lo.ro[i], up.init, up.ro[i])
+PendingR(s, x, i) == Credit(x.liq, WSub(RewardInside(s, x, i), x.rw[i].cp))
+
+RLedOpen(s, k) ==
+  [i \in 1..3 |-> [hi |-> 0, lo |-> 0, cr |-> (0 -- PendingR(s, s.pos[k], i)) -- 1, n |-> 0, lmax |-> s.pos[k].liq]]
+
+RShare(pool, x, i, now, up) ==
+  LET num == ((((now -- pool.rewardTs) \otimes pool.rewards[i].emissions) \otimes x.liq) \otimes BPow2(64)) IN
+  IF up THEN CeilDiv(num, pool.liq) ELSE BDiv(num, pool.liq)
+
+RLedAfter(rled, pre, e, post) ==
+  LET base  == [k \in (DOMAIN rled \cap DOMAIN post.pos) |-> rled[k]]
+      fresh == [k \in (DOMAIN post.pos \ DOMAIN rled) |-> RLedOpen(post, k)]
+      cur   == base @@ fresh
+      p     == PoolOfEvent(pre, e)
+      acc   == IF e.name \in UpdatingNames /\ p \in DOMAIN pre.pool
+               THEN [k \in DOMAIN cur |->
+                      IF k \in DOMAIN pre.pos /\ pre.pos[k].pool = p /\ InRange(pre.pool[p], pre.pos[k]) /\ ~(pre.pos[k].liq \doteq 0)
+                      THEN [i \in 1..3 |->
+                             IF Accrues(pre.pool[p], i, e.now)
+                             THEN [cur[k][i] EXCEPT !.hi = @ ++ RShare(pre.pool[p], pre.pos[k], i, e.now, TRUE),
+                                                    !.lo = @ ++ RShare(pre.pool[p], pre.pos[k], i, e.now, FALSE),
+                                                    !.n = @ ++ 1]
+                             ELSE cur[k][i]]
+                      ELSE cur[k]]
+               ELSE cur
+  IN IF e.name \in PosUpdateNames /\ APos(e) \in DOMAIN pre.pos /\ APos(e) \in DOMAIN acc
+     THEN LET k == APos(e) IN
+          [acc EXCEPT ![k] = [i \in 1..3 |->
+             IF WrapMod \preceq (pre.pos[k].liq \otimes WSub(post.pos[k].rw[i].cp, pre.pos[k].rw[i].cp))
+             THEN RLedOpen(post, k)[i]          \* the credit was dropped (overflow => 0): start a new period
+             ELSE [acc[k][i] EXCEPT !.cr = @ ++ OwedDelta(pre.pos[k].rw[i].owed, post.pos[k].rw[i].owed),
+                                    !.n = @ ++ 1, !.lmax = BMax(@, post.pos[k].liq)]]]
+     ELSE IF e.name \in LedResetNames /\ APos(e) \in DOMAIN acc
+     THEN [acc EXCEPT ![APos(e)] = RLedOpen(post, APos(e))]
+     ELSE acc
+
+C11Ledger(rled, post) ==
+  \A k \in DOMAIN rled : \A i \in 1..3 :
+    LET ld == rled[k][i] x == post.pos[k] IN
+    /\ Sub("reward_upper", (ld.cr \otimes Q128) \preceq ld.hi)
+    /\ Sub("reward_lower", ld.lo \preceq (((ld.cr ++ PendingR(post, x, i)) ++ LedSlack(ld)) \otimes Q128))
+
+-----------------------------------------------------------------------------
 (* ghost update *)
 SegAfter(pre, e, post) ==
   \* cumulative trader gains per pool over a run of swaps
@@ -263,6 +412,11 @@ IxOK(pre, e, post) ==
      THEN /\ Chk("C03", "swap_bounds", C03Swap(pre, e, post))
           /\ Chk("C06", "swap_split", NoTransferFee(pre, APool(e)) => C06Swap(pre, e, post))
      ELSE TRUE
+  /\ Chk("C11", "accrual", C11Accrual(pre, e, post))
+  /\ IF e.name \in {"set_reward_emissions", "set_reward_emissions_v2"}
+     THEN Chk("C11", "set_emissions", C11SetEmissions(pre, e, post)) ELSE TRUE
+  /\ IF e.name \in {"collect_reward", "collect_reward_v2"}
+     THEN Chk("C11", "collect_reward", NoTransferFee(pre, pre.pos[APos(e)].pool) => C11Collect(pre, e, post)) ELSE TRUE
   /\ IF e.name \in {"collect_protocol_fees", "collect_protocol_fees_v2"}
      THEN Chk("C06", "collect_protocol", NoTransferFee(pre, APool(e)) => C06CollectProtocol(pre, e, post))
      ELSE TRUE
@@ -277,7 +431,7 @@ IxFailed(pre, e) ==
   /\ Chk("ANY", "must_succeed", ~e.must)
   /\ Chk("ANY", "atomic", EmptyDiff(e.diff))
 
-Init == l = 1 /\ st = [now |-> 0] /\ gh = [seg |-> <<>>] /\ TLCSet(7, <<"none", "none">>) /\ TLCSet(8, "none")
+Init == l = 1 /\ st = [now |-> 0] /\ gh = [seg |-> <<>>, led |-> <<>>, rled |-> <<>>] /\ TLCSet(7, <<"none", "none">>) /\ TLCSet(8, "none")
 
 Next ==
   /\ l <= Len(Rec)
@@ -285,7 +439,8 @@ Next ==
   /\ LET e == Rec[l] IN
      CASE e.k = "reset" ->
             /\ st' = [sec \in Sections |-> e.state[sec]] @@ [prices |-> e.prices, now |-> e.now]
-            /\ gh' = [seg |-> <<>>]
+            /\ gh' = [seg |-> <<>>, led |-> IF "C07" \in Active THEN [k \in DOMAIN e.state.pos |-> LedOpen(st', k)] ELSE <<>>,
+                      rled |-> IF "C11" \in Active THEN [k \in DOMAIN e.state.pos |-> RLedOpen(st', k)] ELSE <<>>]
             /\ Chk("C05", "liq_sums_reset", C05State(st'))
             /\ Chk("C01", "solvent_reset", Solvent(st'))
        [] e.k = "clock" ->
@@ -296,7 +451,11 @@ Next ==
             THEN LET post == Apply(st, e) IN
                  /\ IxOK(st, e, post)
                  /\ st' = post
-                 /\ gh' = [gh EXCEPT !.seg = SegAfter(st, e, post)]
+                 /\ gh' = [seg |-> SegAfter(st, e, post),
+                            led |-> IF "C07" \in Active THEN LedAfter(gh.led, st, e, post) ELSE <<>>,
+                            rled |-> IF "C11" \in Active THEN RLedAfter(gh.rled, st, e, post) ELSE <<>>]
+                 /\ Chk("C07", "fee_ledger", C07Ledger(gh'.led, post))
+                 /\ Chk("C11", "reward_ledger", C11Ledger(gh'.rled, post))
             ELSE /\ IxFailed(st, e)
                  /\ st' = [st EXCEPT !.prices = MergeFn(st.prices, e.prices)]
                  /\ gh' = gh
